@@ -41,6 +41,12 @@ func isAtomicOn(in ssa.Instruction, fn, field string) (*ssa.Call, bool) {
 }
 
 func runC13(c *Ctx) {
+	c13Accounting(c)
+	c13Rest(c)
+}
+
+// c13Accounting: the `accounting` rule (shared with C12: hasNext decides where the closing boundary goes).
+func c13Accounting(c *Ctx) {
 	c.R.Rule("accounting", "per materialised executor: pending++ before go; one result offered per group from a fresh response context whose errors it carries; receive only when pending > 0 with one decrement; deferred += len(map) before starting exactly that map's groups and after the object's Invalids test; hasNext read after marshalling", 6*len(c.Gen))
 	for _, g := range c.Gen {
 		pfx := "gen:" + g.Name + "/"
@@ -247,6 +253,9 @@ func runC13(c *Ctx) {
 		c.R.Check(okObj && nobj > 0, pfx+"objects/deferred-counted", g.Spec.Dir, sprintf("%d object functions start their groups after deferred += len(map) and the Invalids test", nobj), why)
 	}
 
+}
+
+func c13Rest(c *Ctx) {
 	c.R.Rule("deferred-slot", "in every object function: on the field.Deferrable != nil edge the parent's slot is set to graphql.Null and the parent set's Concurrently is not reachable in that iteration; processDeferredGroup's goroutine replaces only its own result by Null when the group's set is invalid", len(c.Gen))
 	nslots := 0
 	for _, g := range c.Gen {
@@ -322,6 +331,7 @@ func runC13(c *Ctx) {
 	funcFieldsSet(c, pkgGraphql)
 	batchHasNextFromLast(c)
 	hasNextAbsentIsFalse(c)
+	deferredCounterCompared(c)
 	fieldSetAgreement(c)
 }
 
